@@ -1,6 +1,6 @@
 (* C09 - ACL decisions are first-match and independent of lookup history.
    Property theorems only; every proof is `exact <lemma>` from proof/C09_ACL.v. *)
-From Hy Require Import model.C09_ACL proof.C09_ACL.
+From Hy Require Import model.C09_ACL proof.C09_ACL model.C09_Conc proof.C09_Conc.
 From Coq Require Import ZArith.
 Local Open Scope N_scope.
 
@@ -93,6 +93,21 @@ Theorem C09_cache_invisible_concurrent : forall (ip_str : ip -> str),
   Forall (fun x => snd x = fresh rs (fst x)) (cop_hits ip_str rs [] os).
 Proof. exact cache_invisible_concurrent. Qed.
 Print Assumptions C09_cache_invisible_concurrent.
+
+(* Whole concurrent calls, not only their cache hits: callers enter Match at any time, each performs its
+   two atomic cache sections (Get; after a miss and the scan of the immutable rule slice, Add of the
+   FINAL scan result) in program order, interleaved in any way with the sections of the other callers
+   and with evictions of any kind.  Every caller that has returned has returned the fresh first-match
+   evaluation of its own query - whether or not another lookup of the same key was in progress.
+   (A variant of the code that Adds an entry before it is final is not an instance of this step
+   relation; the correspondence check runs this LTS on observed overlapping schedules and rejects it.) *)
+Theorem C09_concurrent_lookups : forall (ip_str : ip -> str),
+  (forall a, ~ In "|"%byte (ip_str a)) ->
+  (forall a b, ip_str a = ip_str b -> canon a = canon b) ->
+  forall (pol : cache -> list key) rs (es : list cev) q r,
+  In (Some (q, r)) (answers (snd (conc_run ip_str pol rs es))) -> r = fresh rs q.
+Proof. exact conc_answers_fresh. Qed.
+Print Assumptions C09_concurrent_lookups.
 
 (* Every accepted proto/port text yields one of the three protocols and a range 0 <= start <= end <= 65535. *)
 Theorem C09_protoport_wf : forall s p a b,
